@@ -102,8 +102,8 @@ def run_coqc(path, extra_R=(), timeout=COQ_TIMEOUT):
 def make_cone(target, timeout=1800):
     """(re)build a .vo of the hand-written development with everything it depends on (full .vo build)."""
     lock = os.path.join(COQ, '.build.lock')
-    cmd = 'cd %s && ( [ -f Makefile ] || coq_makefile -f _CoqProject -o Makefile $(find Theory Model Instances Proofs Properties -name "*.v" | sort) ) && flock %s timeout %d make -j16 %s' % (
-        COQ, lock, timeout, target)
+    cmd = ('cd %s && flock %s sh -c \'coq_makefile -f _CoqProject -o Makefile $(find Theory Model Instances Proofs Properties -name "*.v" | sort) '
+           '&& timeout %d make -j16 %s\'') % (COQ, lock, timeout, target)
     p = subprocess.run(cmd, shell=True, capture_output=True, text=True)
     return p.returncode, p.stdout + p.stderr
 
